@@ -604,7 +604,7 @@ int read_msf(struct in_buffer* b,struct msa** m)
                                         seq_ptr->name[i] = 0;
                                         break;
                                 }
-                                if(isspace((int)p[i])){
+                                if(isspace((int)p[i]) || p[i] == 0){
                                         seq_ptr->name[i] = 0;
                                         break;
                                 }
@@ -625,6 +625,9 @@ int read_msf(struct in_buffer* b,struct msa** m)
                         active_seq = 0;
                 }else{
                         if(!isspace(line[0])){
+                                if(active_seq >= msa->numseq){
+                                        ERROR_MSG("More sequence lines in a block than names in the MSF header.");
+                                }
                                 seq_ptr = msa->sequences[active_seq];
                                 //p = strstr(line,seq_ptr->name);
                                 //if(p){
